@@ -9,7 +9,7 @@ import time
 
 VERIF = os.path.dirname(os.path.dirname(os.path.abspath(__file__)))
 REPO = os.environ.get("VERIF_REPO", "/repo")
-BUILD = os.path.join(VERIF, "build")
+BUILD = os.environ.get("VERIF_BUILD") or os.path.join(VERIF, "build")
 HARNESS = os.path.join(VERIF, "harness")
 FMT_DIR = "/usr/lib/x86_64-linux-gnu/cmake/fmt"
 GUARD = "OPM_COMMON_VERIF"
@@ -169,20 +169,28 @@ def _compile_objs(kind, srcs, objdir, cxx, cflags, log, extra_deps=()):
     return objs
 
 
-def ensure_probe(kind="plain"):
-    """build harness/opmprobe against tree `kind`; returns binary path"""
+def ensure_probe(kind="plain", group="all"):
+    """build the probe for command group `group` (harness/probe/main.cpp +
+    cmd_<group>*.cpp [+ shared *.cpp named in harness/probe/<group>.deps]) against
+    tree `kind`; group "all" links every cmd_*.cpp.  Returns the binary path."""
     lib = ensure_lib(kind)
     t = TREES[kind]
     log = os.path.join(BUILD, "harness-%s.log" % kind)
-    srcs = sorted(glob.glob(os.path.join(HARNESS, "probe", "*.cpp")))
+    pdir = os.path.join(HARNESS, "probe")
+    if group == "all":
+        srcs = sorted(glob.glob(os.path.join(pdir, "*.cpp")))
+    else:
+        srcs = [os.path.join(pdir, "main.cpp")] + sorted(glob.glob(os.path.join(pdir, "cmd_%s*.cpp" % group)))
+        deps = os.path.join(pdir, group + ".deps")
+        if os.path.exists(deps):
+            with open(deps) as f:
+                srcs += [os.path.join(pdir, x) for x in f.read().split()]
     objdir = os.path.join(BUILD, "obj-probe-" + kind)
-    exe = os.path.join(BUILD, "opmprobe-" + kind)
+    exe = os.path.join(BUILD, "opmprobe-%s-%s" % (kind, group))
     with _Lock("harness-" + kind):
-        flags = t["flags"].replace(FUZZ_COV, "").split() + include_flags(kind) + ["-I" + HARNESS]
+        flags = t["flags"].replace(FUZZ_COV, "").split() + include_flags(kind) + ["-I" + HARNESS, "-I" + pdir]
         if kind == "plain":
             flags += ["-fopenmp"]
-        # headers of the repo are tracked via the archive's mtime: if the
-        # archive is newer than an object, recompile that object.
         objs = _compile_objs(kind, srcs, objdir, t["cxx"], flags, log)
         if not _newer(exe, objs + [lib]):
             cmd = [t["cxx"]] + objs + [lib] + LIBS_PLAIN + ["-o", exe]
